@@ -11,7 +11,7 @@
 //     S   queue.signal_push_event()     (explicit recovery signal)
 //     J   queue.join()
 // stdout: one line per case:
-//   <case-id> ok steps=<n> pre=<n> | <per-op results> del=<delivery order> | <monitor verdicts> [gap=<n>]
+//   <case-id> ok steps=<n> pre=<n> | <per-op results> del=<delivery order> | <monitor verdicts>
 //   results: E0 / E-1 (return code), S0 / S-1, J<k> (k = items whose execute() had returned and that were not yet
 //   consumed when join() returned).
 // Monitors (1 = holds):
@@ -21,10 +21,10 @@
 //   single   consume callback never entered while another invocation is inside
 //   covered  whenever an execute()/signal returns or a consumer exits: items whose execute() returned and that are not
 //            consumed have a running/launched consumer or a launcher (unless a refused launch is outstanding)
+//   final    at the end every item was consumed (unless a refused launch is outstanding)
+//   idle     at the end the event counter is zero and no consumer is live
 //   join     join() returns only when every item whose execute() returned before join() was called is consumed
 //            (unless a refused launch is outstanding)
-//   gapok    the two previous monitors did not fail in the "ticket gap" situation (head ticket of the inner queue taken
-//            by a producer that has not signalled yet) - reported separately: signature ticket-gap
 #include "shim/prelude.h"
 #include "babylon/concurrent/execution_queue.h"
 
@@ -52,7 +52,7 @@ struct World {
   std::vector<int> in_exec;      // thread is inside execute()/signal_push_event(): 0 no, 1 yes, 2 yes and launching
   std::vector<std::vector<int>> consumed, returned; std::vector<std::vector<uint64_t>> ret_stamp;
   std::vector<std::pair<int, int>> order;
-  bool once = true, single = true, covered = true, join_ok = true, gap_ok = true; int gaps = 0;
+  bool once = true, single = true, covered = true, join_ok = true;
   std::vector<std::thread*> spawned; size_t nspawn = 0;   // slots pre-sized: creation is a scheduling point
 
   static uint64_t enc(size_t t, size_t i) { return ((uint64_t)(t + 1) << 32) | (uint64_t)i; }
@@ -62,15 +62,6 @@ struct World {
     return *i < threads[*t].size() && threads[*t][*i].k == 'E';
   }
   size_t raw(const void* p) const { return *(volatile const size_t*)p; }
-  // head ticket of the inner queue is taken by a producer that has not yet signalled (no scheduling point here)
-  bool ticket_gap() {
-    size_t npop = raw(&q._queue._next_pop_index), ntick = raw(&q._queue._next_push_index);
-    if (ntick <= npop) return false;
-    uint64_t v = q._queue._slots.value(npop & q._queue._slot_mask);
-    size_t t, i;
-    if (!dec(v, &t, &i) || consumed[t][i] > 0) return true;                 // head slot not published yet
-    return !returned[t][i] && in_exec[t] != 2;                                // published, owner not signalled yet
-  }
   size_t missing(uint64_t before) const {   // items whose execute returned (before stamp `before`, 0 = any) and not consumed
     size_t m = 0;
     for (size_t t = 0; t < threads.size(); ++t)
@@ -81,7 +72,7 @@ struct World {
   bool launcher_present() const { for (int x : in_exec) if (x == 2) return true; return false; }
   void check_covered() {
     if (stale || live > 0 || launcher_present() || missing(0) == 0) return;
-    if (ticket_gap()) { gap_ok = false; ++gaps; } else covered = false;
+    covered = false;
   }
 };
 
@@ -174,7 +165,7 @@ int main(int argc, char** argv) {
             case 'J': {
               w->q.join();
               size_t strong = w->missing(0), weak = w->missing(op.b);
-              if (weak != 0 && !w->stale) { if (w->live == 0 && w->depth == 0 && w->ticket_gap()) { w->gap_ok = false; ++w->gaps; } else w->join_ok = false; }
+              if (weak != 0 && !w->stale) w->join_ok = false;
               op.res = "J" + std::to_string(strong);
             } break;
           }
@@ -200,9 +191,9 @@ int main(int argc, char** argv) {
           if (w->threads[t][i].k == 'E' && w->consumed[t][i] != 1) final_ok = false;
     size_t events_end = w->raw(&w->q._events);
     bool idle_ok = events_end == 0 && w->live == 0 && w->depth == 0;
-    printf("%s ok steps=%llu pre=%llu | %s | once=%d order=%d single=%d covered=%d join=%d final=%d idle=%d gapok=%d gaps=%d stale=%d\n", id,
+    printf("%s ok steps=%llu pre=%llu | %s | once=%d order=%d single=%d covered=%d join=%d final=%d idle=%d stale=%d\n", id,
            (unsigned long long)r.steps, (unsigned long long)r.preemptions, out.c_str(), w->once, order_ok, w->single,
-           w->covered, w->join_ok, final_ok, idle_ok, w->gap_ok, w->gaps, (int)w->stale);
+           w->covered, w->join_ok, final_ok, idle_ok, (int)w->stale);
     fflush(stdout);
     delete w;
   }
